@@ -3,6 +3,7 @@
 //!        replay <prop> run <input...>                          -> exit 0 if the input passes, 1 + "FAIL <what>" otherwise
 mod util;
 mod c18;
+mod c08;
 
 fn main() {
     let args: Vec<String> = std::env::args().collect();
@@ -15,6 +16,7 @@ fn main() {
         let thorough = args.len() > 5 && args[5] == "thorough";
         let (tried, res) = match prop {
             "C18" => c18::search(seed, &budget, thorough),
+            "C08" => c08::search(seed, &budget, thorough),
             _ => { println!("NOORACLE"); return; }
         };
         match res {
@@ -25,6 +27,7 @@ fn main() {
         let input = args[3..].join(" ");
         let r = match prop {
             "C18" => c18::run(&input),
+            "C08" => c08::run(&input),
             _ => Err("no oracle".to_string()),
         };
         match r {
